@@ -268,6 +268,20 @@ pub fn verdict(rng: &mut Rng, stack: bool, extra: usize) -> Vec<Case> {
         ast.insert(i, orig(0x3000));
         out.push(Case { fam: "verdict", ast });
     }
+    // .orig repeated with the SAME value (each occurrence spelt independently) is still a second .orig
+    for (i, j) in [(0usize, 1usize), (0, 2), (1, 3)] {
+        for v in [0x3000i64, 0xFFFF, 0] {
+            let mut ast = filler(3, rng);
+            ast.insert(j, orig(v));
+            ast.insert(i, orig(v));
+            out.push(Case { fam: "verdict", ast });
+        }
+    }
+    // a label defined twice is refused even when both definitions name the same address
+    out.push(Case { fam: "verdict", ast: vec![plain("break").lab("twice"), add_r(1, 1, 1).lab("twice"), plain("halt")] });
+    out.push(Case { fam: "verdict", ast: vec![orig(0x3000).lab("twice"), add_r(1, 1, 1).lab("twice"), plain("halt")] });
+    out.push(Case { fam: "verdict", ast: vec![add_r(1, 1, 1), plain("break").lab("twice"), plain("break"), plain("halt").lab("twice")] });
+    out.push(Case { fam: "verdict", ast: vec![add_r(1, 1, 1).lab("twice").lab("twice"), plain("halt")] });
     // two labels before one statement, a label at the very end, a label on .end
     out.push(Case { fam: "verdict", ast: vec![add_r(1, 1, 1).lab("one").lab("two"), plain("halt")] });
     out.push(Case { fam: "verdict", ast: vec![add_r(1, 1, 1), plain("halt"), plain("break").lab("dangling")] });
@@ -276,6 +290,21 @@ pub fn verdict(rng: &mut Rng, stack: bool, extra: usize) -> Vec<Case> {
     out.push(Case { fam: "verdict", ast: vec![plain("break").lab("one"), add_r(1, 1, 1).lab("two"), br_lab(7, "one"), br_lab(7, "two")] });
     out.push(Case { fam: "verdict", ast: vec![orig(0x5000).lab("one"), add_r(1, 1, 1).lab("two"), br_lab(7, "one"), br_lab(7, "two")] });
     let _ = stack;
+    out
+}
+
+/// .blkw with counts around and above 2^15 (a decimal count >= 32768 is a negative i16 inside the lexer):
+/// the canonical layout writes the count in decimal, the other layouts in a seeded spelling.
+fn bigblk(rng: &mut Rng) -> Vec<Case> {
+    let mut out = Vec::new();
+    for n in [4097i64, 32767, 32768, 32769, 40000, 50000] {
+        let mut ast = vec![add_r(1, 2, 3), blkw(n), fill(0x1234).lab("after"), plain("halt")];
+        if rng.chance(1, 2) {
+            ast.insert(0, orig(rng.range(0, 0x2000)));
+        }
+        out.push(Case { fam: "bigblk", ast });
+    }
+    out.push(Case { fam: "bigblk", ast: vec![blkw(20000), fill(1), blkw(32768), fill(2).lab("end_")] });
     out
 }
 
@@ -586,6 +615,12 @@ fn total_main(args: &Args) {
                 }
                 texts.push(format!("{}br top\n", "top add r0 r0 r0\n".to_string() + &"add r1 r1 r1\n".repeat(65_534)));
                 texts.push(format!(".stringz \"{}\"\n", "a".repeat(70_000)));
+                for n in [0xFFFCu32, 0xFFFD, 0xFFFE, 0xFFFF] {
+                    for tail in ["br #1", "ld r0 #-1", "lea r1 x10", "jsr #0", "st r2 #5", "br top", ".fill #1", "halt", "add r0 r0 r0\nbr #-1"] {
+                        texts.push(format!("top .blkw x{:X}\n{}\n", n, tail));
+                        texts.push(format!("top .blkw x8000\n.blkw x{:X}\n{}\n", n - 0x8000, tail));
+                    }
+                }
                 texts.push(".blkw #-1\nhalt\n".to_string());
                 texts.push(".blkw #-32768\n.blkw #-32768\nhalt\n".to_string());
                 texts.push(format!(".orig xFFFF\n{}", "halt\n".repeat(10)));
@@ -626,6 +661,7 @@ pub fn main(args: &Args) {
             "verdict" => verdict(&mut rng, stack, n),
             "random" => random(&mut rng, stack, n),
             "strings" => strings(&mut rng),
+            "bigblk" => bigblk(&mut rng),
             other => panic!("unknown family {other}"),
         };
         let mut out = Out::create(&path);
